@@ -1,0 +1,29 @@
+//go:build verif
+
+// Contracts for package config, read by /verif/kvc (contract-based deductive verification).
+// Comment-only; excluded from every build without the `verif` tag.
+package config
+
+// The documented constraints (docs/config.md), as a specification function; the compaction ratio is compared
+// as a real number (a NaN ratio is not greater than 1 and therefore invalid).
+//@ predicate ValidSpec(c *Config) = c.Version > 0 && c.WALDir != "" && c.SSTDir != "" && c.MemTableSize > 0 && c.MaxMemTables > 0 && c.SSTableBlockSize > 0 && c.SSTableIndexSize > 0 && c.CompactionLevels > 0 && c.CompactionRatio > float(1) && c.ReadOnlyTxTTL > 0 && c.ReadWriteTxTTL > 0 && c.IdleTxTimeout > 0 && c.TxCleanupInterval > 0 && 0 < c.TxWarningThreshold && c.TxWarningThreshold < c.TxCriticalThreshold && c.TxCriticalThreshold < 100
+
+//@ func (*Config).Validate
+//@   ensures[C20] (result == nil) <==> ValidSpec(c)
+//@   ensures[C20] result != nil ==> errors.Is(result, ErrInvalidConfig)
+
+// Validate precedes every file system effect; the manifest is replaced by write-to-temp + rename.
+//@ func (*Config).SaveManifest
+//@   ensures[C20] !ValidSpec(c) ==> err != nil && filewrites == old(filewrites) && renames == old(renames)
+//@   ensures[C20] err == nil ==> ValidSpec(c) && filewrites == old(filewrites) + 1 && renames == old(renames) + 1
+//@   ensures[C20] renames <= old(renames) + 1 && filewrites <= old(filewrites) + 1
+
+// A stored configuration is returned only if it decodes and validates; a missing manifest is the only case
+// reported as ErrManifestNotFound.
+//@ func LoadConfigFromManifest
+//@   ensures[C20] err == nil ==> result0 != nil && ValidSpec(result0)
+//@   ensures[C20] err != nil ==> result0 == nil
+//@   ensures[C20] filewrites == old(filewrites) && renames == old(renames)
+
+//@ func NewDefaultConfig
+//@   ensures[C20] result != nil && fresh(result) && ValidSpec(result)
